@@ -12,12 +12,12 @@ func verifCheckValue(it *Iter, nd *verifNode, mode int) {
 	switch nd.kind {
 	case '[':
 		verifAssert(it.Type() == TypeArray, "array value has TypeArray")
-		arr, err := it.Array(nil)
+		arr, err := it.Array(verifStaleArray())
 		verifAssert(err == nil, "Array() on an array value succeeds")
 		verifCheckArray(arr, nd, mode)
 	case '{':
 		verifAssert(it.Type() == TypeObject, "object value has TypeObject")
-		obj, err := it.Object(nil)
+		obj, err := it.Object(verifStaleObject())
 		verifAssert(err == nil, "Object() on an object value succeeds")
 		verifCheckObject(obj, nd, mode)
 	default:
@@ -85,11 +85,42 @@ func verifCfgT1(nops bool) verifGenCfg {
 		strLen: 1, strLen2: 0, keyLen: 1} // string values of length 1 or 0 (an empty string stored last has offset == len(buffer))
 }
 
+// destinations handed to Root/Object/Array: nil, or (staledst) objects last used on some other document (another ParsedJson, e.g.
+// the original of a clone): what they held must not show through (C16: results are independent of earlier objects)
+var verifStaleDst bool
+
+func verifStalePJ() ParsedJson {
+	return ParsedJson{Tape: []uint64{nondetU64("stale.dst.tape0"), nondetU64("stale.dst.tape1")}, Message: nondetBytes("stale.dst.message", 2),
+		Strings: &TStrings{B: nondetBytes("stale.dst.strings", 3)}}
+}
+
+func verifStaleObject() *Object {
+	if !verifStaleDst {
+		return nil
+	}
+	return &Object{tape: verifStalePJ(), off: 1}
+}
+
+func verifStaleArray() *Array {
+	if !verifStaleDst {
+		return nil
+	}
+	return &Array{tape: verifStalePJ(), off: 1}
+}
+
+func verifStaleIter() *Iter {
+	if !verifStaleDst {
+		return nil
+	}
+	return &Iter{tape: verifStalePJ(), off: 1, addNext: 1, cur: nondetU64("stale.dst.cur"), t: TagString}
+}
+
 func verifWalkDoc(T int, nops bool, mode int) {
 	pj, root := verifGenDoc(verifCfgT1(nops), T)
 	it := pj.Iter()
 	verifAssert(it.Advance() == TypeRoot, "tape starts with a root")
-	typ, rit, err := it.Root(nil)
+	verifStaleDst = verifChoice("staledst", 2) == 1
+	typ, rit, err := it.Root(verifStaleIter())
 	verifAssert(err == nil && typ == verifTypeOf(root.kind), "Root() yields the top-level container")
 	verifCheckValue(rit, root, mode)
 	verifAssert(it.Advance() == TypeNone, "single root: nothing after it")
